@@ -168,7 +168,27 @@ impl Ep {
 }
 
 /// Bring a fresh endpoint of `entry` through the history `pre` (progress / earlier feeds).
+/// Set-up with retries: bringing a live endpoint into its phase involves real sockets, handshakes and (for the
+/// PeerConnection entries) the stack's own timers; on an overloaded machine an attempt can fail for reasons that have
+/// nothing to do with the case. Three attempts, each on a completely fresh endpoint (new sockets, new ports), before the
+/// failure counts as one of the machinery. A history that the implementation cannot follow after an earlier input
+/// ("unreachable") is a property of the case, not of the machine, and is not retried.
 async fn prepare(ctx: &Ctx, entry: &str, pre: &[Value], ci: usize, depth: u64, final_tpl: &str) -> Result<Ep, String> {
+    let mut last = String::new();
+    for attempt in 0..3u64 {
+        match prepare_once(ctx, entry, pre, ci, depth, final_tpl).await {
+            Ok(ep) => return Ok(ep),
+            Err(e) if e.starts_with("unreachable:") => return Err(e),
+            Err(e) => {
+                last = e;
+                tokio::time::sleep(std::time::Duration::from_millis(30 * (attempt + 1))).await;
+            }
+        }
+    }
+    Err(format!("{last} (3 attempts)"))
+}
+
+async fn prepare_once(ctx: &Ctx, entry: &str, pre: &[Value], ci: usize, depth: u64, final_tpl: &str) -> Result<Ep, String> {
     let stays_pre = !pre.iter().any(|o| o["op"] == "progress");
     let mut ep = Ep::build(entry, depth, final_tpl, stays_pre).await?;
     let mut fed = false;
